@@ -371,8 +371,41 @@ ConstructOK(a, r, post) ==
   /\ Chk("C09.no coincident vertices",
          \A v, w \in VRecs(post) : v.id # w.id /\ v.m = w.m => v.pert \/ w.pert)
 
+\* ---- C16 : periodic image-point mode (the quotient torus) --------------------------------------
+\* A lifted vertex is <<id, offset>>; faces are compared up to a common translation of their offsets.
+LVert(c, i) == <<c.vs[i], c.off[i]>>
+LKey(lv) == lv[1] * 1000000 + Sum([j \in DOMAIN lv[2] |-> (lv[2][j] + 50) * (IF j = 1 THEN 1000 ELSE 1)])
+\* translate a set of lifted vertices so that its smallest element (by id, then offset) has offset 0
+NormFace(F) ==
+  LET m == CHOOSE x \in F : \A y \in F : LKey(x) <= LKey(y)
+  IN  {<<x[1], [j \in DOMAIN x[2] |-> x[2][j] - m[2][j]]>> : x \in F}
+CellLifted(c) == {LVert(c, i) : i \in DOMAIN c.vs}
+PFacet(c, i) == NormFace(CellLifted(c) \ {LVert(c, i)})
+PEdges(S) == UNION {{NormFace({LVert(c, i), LVert(c, j)}) : i, j \in {x \in DOMAIN c.vs : TRUE}} \ {NormFace({LVert(c, i)}) : i \in DOMAIN c.vs}
+                    : c \in CRecs(S)}
+
+PeriodicOK(a, r, post) ==
+  LET inputs == Range(a.input)
+      inc == {<<c.id, i>> : c \in CRecs(post), i \in 1..(post.D + 1)}
+      facetOf(p) == PFacet(CRec(post, p[1]), p[2])
+  IN
+  /\ Chk("C16.periodic: live", post.live /\ post.D = a.D)
+  /\ Level1(post)
+  /\ Chk("C16.periodic: each input point once",
+         /\ \A v \in VRecs(post) : \E x \in inputs : ImageOfT(v, x, a.L)
+         /\ \A v, w \in VRecs(post) : v.id # w.id => v.m # w.m \/ v.pert \/ w.pert)
+  /\ InBox(post)
+  /\ Chk("C16.periodic: boundary facets present",
+         \A p \in inc : Cardinality({q \in inc : facetOf(q) = facetOf(p)}) = 2)
+  /\ Chk("C16.periodic: neighbour slots",
+         \A p \in inc : LET q == CHOOSE q \in inc : q # p /\ facetOf(q) = facetOf(p)
+                         IN  CRec(post, p[1]).nb[p[2]] = q[1])
+  /\ Chk("C16.periodic: Euler characteristic zero",
+         Len(post.verts) - Cardinality(PEdges(post)) + Len(post.cells) = 0)
+
 Construct(a, r, post) ==
-  \/ r.kind = "Ok" /\ ConstructOK(a, r, post)
+  \/ r.kind = "Ok" /\ a.ctor # "ToroidalPeriodic" /\ ConstructOK(a, r, post)
+  \/ r.kind = "Ok" /\ a.ctor = "ToroidalPeriodic" /\ PeriodicOK(a, r, post)
   \/ r.kind = "Err" /\ Chk("C01.Err leaves no object", ~post.live)
 
 \* ---- C02 / C09 / C03 : incremental insertion -----------------------------
